@@ -39,7 +39,8 @@ PVSS_INV = ["Total", "RefinesVerify", "AcceptImpliesUntouched", "FilterExact", "
 
 
 def pvss_consts(shape, nmin, nmax, tamper=1, rec="pick", fixed=True):
-    return {"Shape": shape, "NMin": nmin, "NMax": nmax, "MaxTamper": tamper, "RecMode": rec, "CheckDecIndex": fixed}
+    return {"Shape": shape, "NMin": nmin, "NMax": nmax, "MaxTamper": tamper, "RecMode": rec, "CheckDecIndex": fixed,
+            "Rels": ["indep", "HeqG", "HnegG", "H2G", "Hid", "Gid"]}
 
 
 def c13(ctx):
@@ -80,7 +81,7 @@ def c13(ctx):
         "case = (n, t, shape, mutation, position(s), [selection = subset in an order]); TLC enumerates n=2..5 x all t x {no mutation, every single "
         "mutation of an encrypted package (V,C,R,VG,VH,index,key,commitment j, swap share/proof/both with trustee j, share replaced together with a simulated proof), of a decrypted package "
         "(V,C,R,VG,VH,index,key,encrypted value, swaps, simulated proof)} x every sequence of distinct positions for RecoverSecret; DecShareBatch over 1..4 deals; "
-        "DLEQ single and batch proofs with every single field / base / claimed-point mutation and swaps; n=6..10 by TLC -simulate. Each case is "
+        "DLEQ single and batch proofs over independent, equal (H = G, so xG = xH), opposite, doubled and identity bases with every single field / base / claimed-point mutation and swaps; n=6..10 by TLC -simulate. Each case is "
         "replayed on Ed25519, P-256 and (accept side only) kyber's own residue group of order 11; distinct = (suite, behaviour, call, position/selection)",
         ASSUME_CASES + [
             "VerifyEncShare / DecShare take the expected global challenge as an argument and the package does not export its computation: the harness "
@@ -94,12 +95,12 @@ def c13(ctx):
 # ------------------------------------------------------------------ C15
 SHUF_INV = ["Total", "AcceptImpliesPerm", "Refines", "HonestAccepted", "FamiliesBite", "Designed"]
 OUT_F = ["replaceX", "replaceY", "replace", "rerand", "scal", "dup", "sum", "swapXY", "swapX"]
-PRF_F = ["none", "mutate", "trunc", "splice", "param", "input"]
+PRF_F = ["none", "gen", "mutate", "trunc", "splice", "param", "input"]
 SHUF_FAMS = {
     "pair": OUT_F + PRF_F + ["honestlib", "detach", "kshift", "eqviol", "reprove"],
     "seq": OUT_F + PRF_F + ["seqperm", "kshift", "eqviol", "reprove"],
     "biffle": OUT_F + PRF_F + ["comptamper", "simboth", "reprove"],
-    "simple": ["none", "replace", "scal", "dup", "sum", "mutate", "trunc", "splice", "param", "eqviol", "reprove"],
+    "simple": ["none", "gen", "replace", "scal", "dup", "sum", "mutate", "trunc", "splice", "param", "eqviol", "reprove"],
 }
 
 
